@@ -327,6 +327,7 @@ TWriteMeta ==
        IF w = NoW
        THEN \* file initialisation writes both slots; anything else is a write outside a commit
             /\ Check(initing, "header-write-outside-commit", <<Ev.page>>)
+            /\ Check(m.txid >= 0, "invalid-header-written", <<Ev.page, "at file initialisation">>)
             /\ metas' = [metas EXCEPT ![Ev.page] = m]
             /\ UNCHANGED <<live, w>>
        ELSE LET s == Snapshot(pgs, m) IN
